@@ -267,11 +267,19 @@ theorem WSched.foldl {α : Type} (f : WorkerSt → α → WorkerSt) (hf : ∀ w 
   | [], _, h => h
   | a :: l, w, h => WSched.foldl f hf l (f w a) (hf w a h)
 
+theorem releaseDead_result (x : Proc) : x.releaseDead.result = x.result := by
+  unfold Proc.releaseDead; split <;> rfl
+
+theorem WSched.release {w : WorkerSt} (h : WSched w) (cur : Pid) : WSched (w.release cur) := by
+  unfold WorkerSt.release; split
+  · exact h.modProc cur _ releaseDead_result
+  · exact h
+
 /-- the finished branch: `cur` is in none of the sets -/
 theorem WSched.finish {w : WorkerSt} (h : WSched w) {cur : Pid} (hc : ¬ w.scheduled cur) (x : Proc) (ordQ : List Pid) :
     WSched (w.finish cur x ordQ) := by
   unfold WorkerSt.finish
-  exact WSched.foldl _ (fun w' a hw' => hw'.notifyResult a cur _) _ _ (h.setUnscheduled hc _)
+  exact (WSched.foldl _ (fun w' a hw' => hw'.notifyResult a cur _) _ _ (h.setUnscheduled hc _)).release cur
 
 /-! ### system-level invariant -/
 
@@ -731,16 +739,23 @@ theorem SInv.cmdStep1 {s : Sys} (h : SInv s) {R : Rules} (hR : R.Sane) (i : Wid)
         · simp only [setWk_wk, upd_same, wakeSelecting_spawning]
           intro c' hc'; exact ⟨e_wk ▸ hc', fun p => by simp⟩
       | some x =>
-        simp only [handleCmdWith, hx] at r' ⊢
-        have hsame := (SameProcs.updProc (x' := { x with mailbox := x.mailbox ++ [m] }) hx rfl
-          (w' := { s1.wk i with procs := upd (s1.wk i).procs t (some { x with mailbox := x.mailbox ++ [m] }) }) rfl rfl).trans
-          (SameProcs.wakeSelecting _ t)
-        refine h.afterCmd hq r' e_cmdQ hev0 (hwk0 _) ?_ ?_ ?_
-        · simp only [setWk_wk, upd_same]
-          exact (hW.updProc hx (x' := { x with mailbox := x.mailbox ++ [m] }) rfl).wakeSelecting t
-        · exact hkn hsame.dom
-        · simp only [setWk_wk, upd_same, wakeSelecting_spawning]
-          intro c' hc'; exact ⟨e_wk ▸ hc', fun p => by simp⟩
+        by_cases hd : (Cfg.releaseDead && !x.deliverable) = true
+        · simp only [handleCmdWith, hx, hd, if_true] at r' ⊢
+          refine h.afterCmd hq r' e_cmdQ hev0 (hwk0 _) ?_ ?_ ?_
+          · simp only [setWk_wk, upd_same]; exact hW.wakeSelecting t
+          · exact hkn (SameProcs.wakeSelecting _ t).dom
+          · simp only [setWk_wk, upd_same, wakeSelecting_spawning]
+            intro c' hc'; exact ⟨e_wk ▸ hc', fun p => by simp⟩
+        · simp only [handleCmdWith, hx, hd, Bool.false_eq_true, if_false] at r' ⊢
+          have hsame := (SameProcs.updProc (x' := { x with mailbox := x.mailbox ++ [m] }) hx rfl
+            (w' := { s1.wk i with procs := upd (s1.wk i).procs t (some { x with mailbox := x.mailbox ++ [m] }) }) rfl rfl).trans
+            (SameProcs.wakeSelecting _ t)
+          refine h.afterCmd hq r' e_cmdQ hev0 (hwk0 _) ?_ ?_ ?_
+          · simp only [setWk_wk, upd_same]
+            exact (hW.updProc hx (x' := { x with mailbox := x.mailbox ++ [m] }) rfl).wakeSelecting t
+          · exact hkn hsame.dom
+          · simp only [setWk_wk, upd_same, wakeSelecting_spawning]
+            intro c' hc'; exact ⟨e_wk ▸ hc', fun p => by simp⟩
     | queryAwait a ts =>
       simp only [handleCmdWith] at r' ⊢
       have hq2 := queryTargets_spec a ts (s1.wk i)
@@ -868,9 +883,14 @@ theorem finish_spawning_foldl (cur : Pid) (r : Res) : ∀ (l : List Pid) (w : Wo
   | [], _ => rfl
   | a :: l, w => by simp only [List.foldl_cons]; rw [finish_spawning_foldl cur r l]; simp
 
+@[simp] theorem release_spawning (w : WorkerSt) (cur : Pid) : (w.release cur).spawning = w.spawning := by
+  unfold WorkerSt.release; split
+  · unfold WorkerSt.modProc; split <;> rfl
+  · rfl
+
 @[simp] theorem finish_spawning (w : WorkerSt) (cur : Pid) (x : Proc) (ordQ : List Pid) :
     (w.finish cur x ordQ).spawning = w.spawning := by
-  unfold WorkerSt.finish; rw [finish_spawning_foldl]
+  unfold WorkerSt.finish; dsimp only; rw [release_spawning, finish_spawning_foldl]
 
 theorem SInv.execStep {s : Sys} (h : SInv s) (i : Wid) (fuel : Nat) (ordQ : List Pid) : SInv (execStep s i fuel ordQ) := by
   have r' := h.r.execStep i fuel ordQ
